@@ -617,6 +617,14 @@ impl Expression for ExpressionSequence {
         let mut r = ExpressionResult::Ok(create_data_arc(Data::None()));
         for exp in &self.expressions {
             r = exp.execute(context, allow_undefined);
+            // The first expression that fails (or yields an error value) ends the sequence with that result.
+            let failed = match &r {
+                Err(_) => true,
+                Ok(value) => matches!(value.lock().as_deref(), Ok(Data::Error(_))),
+            };
+            if failed {
+                break;
+            }
         }
         r
     }
